@@ -207,6 +207,215 @@ def _desugar_any_all(B, cb, C, which):
     _splice(B, stub, C)
 
 
+def _succs(t):
+    if t is None:
+        return []
+    out = []
+    for key in ("t", "otherwise", "imag"):
+        if isinstance(t.get(key), int):
+            out.append(t[key])
+    if t["k"] == "switch":
+        out.extend(b for _, b in t["targets"])
+    return out
+
+
+def _inline_await(B, cb, F, C):
+    """`F(args).await` with F a new async fn: the awaited coroutine's body is spliced in where it is polled.
+       at the call:   co = coroutine<C>[args];  fut = co
+       at the poll:   C._1 = co; C._2 = task context; <blocks of C>; on return: poll_result = Poll::Ready(ret); continue at the
+                      switch that follows the poll.  C's own suspension points stay suspension points of B."""
+    t = B.blocks[cb]["term"]
+    # the poll of this future: first call resolved to C reachable from the call's continuation
+    seen, todo, pb = set(), [t.get("t")], None
+    while todo:
+        x = todo.pop(0)
+        if not isinstance(x, int) or x in seen or len(seen) > 40:
+            continue
+        seen.add(x)
+        tx = B.blocks[x]["term"]
+        if tx and tx["k"] == "call" and callee_name(tx) == C.id:
+            pb = x
+            break
+        if tx and tx["k"] == "call" and callee_name(tx) == F.id:
+            continue
+        todo.extend(_succs(tx))
+    if pb is None:
+        return False
+    pt = B.blocks[pb]["term"]
+    sp = t["sp"]
+    lo = len(B.locals)
+    B.locals.append({"ty": C.locals[1]["ty"], "mut": True})      # co
+    B.locals.append({"ty": C.locals[0]["ty"], "mut": True})      # ret
+    co, ret = lo, lo + 1
+    agg = {"k": "agg", "akind": "coroutine", "def": C.id, "ops": list(t["args"]), "adt": None, "variant": None, "fields": []}
+    B.blocks[cb] = {"stmts": list(B.blocks[cb]["stmts"]) + [{"p": (co,), "rv": agg, "sp": sp, "inl": F.id},
+                                                            {"p": tuple(t["dest"]), "rv": {"k": "use", "op": {"c": (co,)}}, "sp": sp, "inl": F.id}],
+                    "term": {"k": "goto", "t": t.get("t")} if isinstance(t.get("t"), int) else {"k": "unreachable"},
+                    **({"cleanup": True} if B.blocks[cb].get("cleanup") else {})}
+    R = len(B.blocks)
+    ready = {"k": "agg", "akind": "adt", "adt": "std::task::Poll", "variant": "Ready", "fields": ["0"], "ops": [{"m": (ret,)}], "def": None}
+    after = pt.get("t")
+    if isinstance(after, int):
+        st = B.blocks[after]["term"]
+        if st and st["k"] == "switch":
+            z = [b2 for v, b2 in st["targets"] if v == 0]
+            if z:
+                # the result is Poll::Ready (variant 0): continue on that edge, the Pending edge (suspend and poll again) is gone
+                B.blocks.append({"stmts": list(B.blocks[after]["stmts"]), "term": {"k": "goto", "t": z[0]}})
+                after = len(B.blocks) - 1
+                R += 1
+    B.blocks.append({"stmts": [{"p": tuple(pt["dest"]), "rv": ready, "sp": sp, "inl": F.id}],
+                     "term": {"k": "goto", "t": after} if isinstance(after, int) else {"k": "unreachable"}})
+    ctx_op = {"c": (2,)} if B.kind == "coroutine" and len(B.locals) > 2 else {"k": {"ty": "()", "zst": True}}
+    B.blocks[pb] = {"stmts": list(B.blocks[pb]["stmts"]),
+                    "term": {"k": "call", "args": [{"c": (co,)}, ctx_op], "dest": (ret,), "t": R, "sp": sp, "callee": pt["callee"]}}
+    _splice(B, pb, C)
+    return True
+
+
+# ---------------------------------------------------------------------------------------------------------------- jump threading
+
+_UNK = ("unk",)
+
+
+def _eval_op(o, env):
+    if "k" in o:
+        k = o["k"]
+        if "bool" in k:
+            return ("c", 1 if k["bool"] else 0)
+        if "int" in k:
+            try:
+                return ("c", int(k["int"]))
+            except ValueError:
+                return _UNK
+        return _UNK
+    pl = o.get("c") or o.get("m")
+    return _eval_place(tuple(pl), env)
+
+
+def _eval_place(pl, env):
+    v = env.get(pl[0], _UNK)
+    variant = None
+    for e in pl[1:]:
+        if v[0] != "agg":
+            return _UNK
+        if e.startswith("@"):
+            if v[1] != e[1:]:
+                return _UNK
+            continue
+        if e.startswith("."):
+            v = v[2].get(e[1:], _UNK)
+            continue
+        return _UNK
+    return v
+
+
+_VARIANT_INDEX = {"None": 0, "Some": 1, "Ok": 0, "Err": 1, "Ready": 0, "Pending": 1, "Continue": 0, "Break": 1}
+
+
+def _step_stmt(st, env):
+    """abstract effect of one statement on the known-value environment"""
+    pl = st["p"]
+    rv = st.get("rv")
+    if len(pl) != 1:
+        env.pop(pl[0], None)      # partial assignment: forget the root
+        return
+    v = _UNK
+    if rv is not None:
+        k = rv["k"]
+        if k == "use":
+            v = _eval_op(rv["op"], env)
+        elif k == "agg" and rv.get("akind") in ("adt", "tuple"):
+            fields = rv.get("fields") or [str(i) for i in range(len(rv["ops"]))]
+            v = ("agg", rv.get("variant") or "", {f: _eval_op(o, env) for f, o in zip(fields, rv["ops"])}, rv.get("adt"))
+        elif k == "discr":
+            y = _eval_place(tuple(rv["place"]), env)
+            if y[0] == "agg" and y[1] in _VARIANT_INDEX and str(y[3] or "").split("::")[-1] in ("Option", "Result", "Poll", "ControlFlow"):
+                v = ("c", _VARIANT_INDEX[y[1]])
+        elif k == "un" and rv["op"] == "Not":
+            a = _eval_op(rv["a"], env)
+            if a[0] == "c" and a[1] in (0, 1):
+                v = ("c", 1 - a[1])
+    if v == _UNK:
+        env.pop(pl[0], None)
+    else:
+        env[pl[0]] = v
+
+
+def thread_jumps(B, max_threads=40):
+    """Constant jump threading, so that inlining a helper that returns a constant (or a constant-tagged value) on each of its paths
+    restores the dominance facts of the un-extracted code: when a block assigns a known value to a local and the blocks that
+    follow — containing statements only — reach a switch on that value, a private copy of those blocks is made for this origin in
+    which the switch is replaced by the jump it must take.  Blocks with calls are never copied (call-site counts are unchanged)."""
+    n_done = 0
+    origins = []
+    for o, blk in enumerate(B.blocks):
+        if blk.get("cleanup") or blk["term"] is None or blk["term"]["k"] not in ("goto", "falseedge", "drop"):
+            continue
+        env = {}
+        for st in blk["stmts"]:
+            _step_stmt(st, env)
+        if env:
+            origins.append((o, env))
+    for o, env0 in origins:
+        if n_done >= max_threads:
+            break
+        env = dict(env0)
+        path = []          # (block index, forced successor or None)
+        cur = B.blocks[o]["term"].get("t")
+        resolved = False
+        seen = set()
+        final = None
+        while isinstance(cur, int) and cur not in seen and len(path) < 30:
+            seen.add(cur)
+            blk = B.blocks[cur]
+            t = blk["term"]
+            if blk.get("cleanup") or t is None:
+                break
+            e2 = dict(env)
+            for st in blk["stmts"]:
+                _step_stmt(st, e2)
+            if t["k"] in ("goto", "falseedge", "drop"):
+                if t["k"] == "drop":
+                    e2.pop(tuple(t["place"])[0], None)
+                path.append((cur, t.get("t")))
+                env = e2
+                cur = t.get("t")
+                continue
+            if t["k"] == "switch":
+                d = _eval_op(t["discr"], e2)
+                if d[0] == "c":
+                    tgt = [b2 for v, b2 in t["targets"] if v == d[1]]
+                    nxt = tgt[0] if tgt else t.get("otherwise")
+                    path.append((cur, nxt))
+                    env = e2
+                    cur = nxt
+                    resolved = True
+                    continue
+            break
+        final = cur
+        # only worth it if a switch was resolved; cut the path after the last resolved switch
+        if not resolved or not isinstance(final, int):
+            continue
+        last = max(i for i, (b, _) in enumerate(path) if B.blocks[b]["term"]["k"] == "switch")
+        path = path[:last + 1]
+        final = path[-1][1]
+        if not isinstance(final, int):
+            continue
+        # duplicate
+        base = len(B.blocks)
+        for i, (b, nxt) in enumerate(path):
+            nb = {"stmts": list(B.blocks[b]["stmts"]), "term": {"k": "goto", "t": (base + i + 1) if i + 1 < len(path) else final}}
+            B.blocks.append(nb)
+        ot = dict(B.blocks[o]["term"])
+        ot["t"] = base
+        B.blocks[o] = {"stmts": B.blocks[o]["stmts"], "term": ot, **({"cleanup": True} if B.blocks[o].get("cleanup") else {})}
+        n_done += 1
+    if n_done:
+        B._cfg = None
+    return n_done
+
+
 def inline_program(P):
     """returns {body id: inlined Body} for the bodies that changed, the set of helper ids that were inlined away, and a log"""
     barrier = barrier_names()
@@ -266,6 +475,19 @@ def inline_program(P):
 
     cand = {f for f in bodies if inlinable(f)}
     cand = {f for f in cand if not reaches_self(f)}
+
+    def inlinable_async(f):
+        b = bodies.get(f)
+        c = bodies.get(f + "::{closure#0}") if isinstance(f, str) else None
+        sig = P.sigs.get(f) or {}
+        if b is None or c is None or c.kind != "coroutine" or not sig.get("async") or b.kind not in ("fn", "assoc_fn"):
+            return False
+        if _last_name(f) in barrier or KNOWN is None or f in KNOWN or sig_of(f) in vanished:
+            return False
+        if len(c.blocks) > MAX_CALLEE_BLOCKS * 3 or len(b.blocks) > 3 or c.arg_count != 2:
+            return False
+        return True
+    cand_async = {f for f in bodies if inlinable_async(f)}
     # other references that keep a helper alive: fn items used as values
     fn_values = set()
     for b in bodies.values():
@@ -303,6 +525,25 @@ def inline_program(P):
                 _splice(B, bb, F)
                 inlined_into.setdefault(F.id, []).append(fid)
                 progress = True
+        # awaits of new async functions
+        for fid in list(bodies):
+            B = get(fid)
+            sites = [(bb, t) for bb, t in B.calls(cleanup=False) if callee_name(t) in cand_async and callee_name(t) != fid
+                     and callee_name(t) + "::{closure#0}" != fid]
+            if not sites:
+                continue
+            if fid not in changed:
+                B = _clone_body(B)
+                changed[fid] = B
+            for bb, t in sites:
+                F = get(callee_name(t))
+                C = get(F.id + "::{closure#0}")
+                if len(B.blocks) + len(C.blocks) > MAX_BODY_BLOCKS:
+                    continue
+                if _inline_await(B, bb, F, C):
+                    inlined_into.setdefault(F.id, []).append(fid)
+                    inlined_into.setdefault(C.id, []).append(fid)
+                    progress = True
         if not progress:
             break
     # iterator adaptors whose closure is built in the same body: any / all.  Switched off: several rules recognise the adaptor
@@ -332,6 +573,16 @@ def inline_program(P):
         for bb, C, which in todo:
             _desugar_any_all(B, bb, C, which)
             log.append("%s: %s(closure) rewritten as the loop it abbreviates" % (fid, which))
+    # restore the dominance facts that a constant-returning helper turned into value flow
+    for fid, B in changed.items():
+        n = 0
+        for _ in range(3):
+            k = thread_jumps(B)
+            n += k
+            if not k:
+                break
+        if n:
+            log.append("%s: %d constant jump(s) threaded" % (fid, n))
     # helpers with no remaining use
     still_called = set()
     for fid in bodies:
